@@ -30,3 +30,64 @@ CHECKS = {
         ],
     },
 }
+
+CHECKS["C01"] = {
+    "level": "fault_enumeration",
+    "engine": "HIST + CRASH (ctlstore journal-prefix replay)",
+    "technique": "exhaustive crash-point enumeration: every journal prefix of every workload to the depth bound, nested over every prefix of the recovery's own writes, plus every single ambiguous-failure answer, on the real database",
+    "design_ref": "DESIGN.md 5/C01, 2.1, 2.5",
+    "text": "Every workload (all op sequences to depth 3 quick / 4 thorough over add, rejected add, update, remove, flush, save_extension, compaction, clean reopen, index creation/removal in the open callback) is recorded once over a journalling store; for EVERY prefix k of its backend mutations the store content is rebuilt, a fresh process recovers (connect + open with the same callback), and the recovered state is compared with the acknowledgement model (per-document candidate images: acknowledged ops in effect, the in-flight op all-or-nothing, nothing undecodable), with the full C02 index<->document comparison, with the unique constraints, and with a continuation (add + flush + clean reopen; a flushed id is never reused); then recovery itself is crashed at every strict prefix of its own writes and the same oracle applied. A second pass answers every single backend mutation of every workload with 'landed but error returned'. Thorough runs the three backends InMemory / MetaStore / EncryptedStore. Exhaustive inside the bound, which is what 'any crash point of any workload' needs; the repo's test samples one workload, no nested crash, one backend.",
+    "note": "Crash model = the repo's own FaultStore model (each backend mutation atomic; a sequence stops anywhere). Concurrent sub-writes of one flush (try_join over indexes) are explored in the single order the deterministic executor produces, not in all downward-closed cuts. Workloads deeper than the bound are not claimed.",
+    "parts": [
+        {"part": "crash", "crate": "vdb", "bin": "c01_crash", "budget_quick": 35, "budget_thorough": 1500},
+    ],
+}
+
+CHECKS["C02"] = {
+    "level": "model_checking",
+    "engine": "HIST",
+    "technique": "explicit enumeration of all operation histories to a depth bound on the real Collection, full index<->document comparison against a BTreeMap model",
+    "design_ref": "DESIGN.md 5/C02, 2.4",
+    "text": "Every history of length <= 3 (quick) / <= 5 as far as the budget allows (thorough) over a 26-operation alphabet (accepted and rejected add/update/remove incl. to/from null, array and text fields, flush, B-tree and BM25 compaction, clean reopen, index create+backfill and index removal through the open callback) runs on a fresh database; each call's result is compared with the sequential model, and after the last step every index is compared with the stored documents in both directions (Eq/Ge/Lt probes at every model key, every key the index lists and boundary constants; every vocabulary term in BM25; HNSW element count and dead/duplicate ids; ids/len/contains/get/stats), on the live handle and again after flush + clean reopen. Crash-recovered states get the same comparison inside the C01 check. Exhaustive below the depth bound: phantoms and holes depend on the order of update/rollback steps across three index families, which is exactly what enumerating all short histories covers.",
+    "note": "Documents from 6 templates / 14 update templates over one schema (unique scalar, duplicate scalar, optional, array, unique array, text, vector). Map-keyed indexed fields are not in the fixture. HNSW is checked for soundness (no dead or duplicate id, exact element count), not for recall.",
+    "parts": [
+        {"part": "hist", "crate": "vdb", "bin": "c02_hist", "args": ["--property", "C02"], "budget_quick": 30, "budget_thorough": 1500},
+    ],
+}
+
+CHECKS["C04"] = {
+    "level": "model_checking",
+    "engine": "HIST + STEP",
+    "technique": "exhaustive history enumeration plus exhaustive preemption-bounded interleaving enumeration of contending writers on the real Collection, checked against a sequential model (Wing-Gong search)",
+    "design_ref": "DESIGN.md 5/C04",
+    "text": "hist: every history to depth 4 (quick) / 5 (thorough) over 19 operations contending for one unique scalar value, one unique array element and one multi-field tuple (accepted writes, rejections by uniqueness / schema / unknown field / missing document, removals that release a value, flush, reopen): every rejected call must leave the complete observable state (documents + every index, C02 comparison) equal to the model's unchanged state, and the value must become insertable exactly when the model says so. step: every pair (preemption bound 2) and triple (bound 1; thorough 3/2 and quadruples at 1) of concurrent writers from a 10-operation contention alphabet, all interleavings of their backend-call steps; exactly the results and final state of some sequential order are accepted, so two winners, a leaked posting or a lost release are violations. Crash states are covered by the uniqueness clause of the C01 oracle.",
+    "note": "Await-granularity schedules (single-threaded executor); lock-granularity interleavings inside the unique B-tree index itself are the thread part. Values drawn from a 2-3 value contested alphabet.",
+    "parts": [
+        {"part": "hist", "crate": "vdb", "bin": "c02_hist", "args": ["--property", "C04"], "budget_quick": 25, "budget_thorough": 1200},
+        {"part": "step", "crate": "vdb", "bin": "c05_step", "args": ["--property", "C04"], "budget_quick": 15, "budget_thorough": 900},
+    ],
+}
+
+CHECKS["C05"] = {
+    "level": "model_checking",
+    "engine": "STEP (choice-DFS + ctlstore gates)",
+    "technique": "stateless exhaustive exploration of all await-level interleavings up to a preemption bound (CHESS-style) of 2..4 concurrent calls on the real Collection, each execution decided by a linearizability search against the sequential model",
+    "design_ref": "DESIGN.md 5/C05, 2.2",
+    "text": "Every subset of 2 (preemption bound 2) and 3 (bound 1) concurrent calls — thorough: 2@3, 3@2, 4@1, 3@3 — from {add x2, update same document different fields x3, update other document, remove x2 of one document, remove other, get, save_extension, flush} runs on a collection preloaded with two flushed documents over a store that makes every backend call a scheduling point before it takes effect; all schedules within the bound are enumerated and for each the return values and the final documents, indexes and counts must equal those of some order of the calls that respects real-time order per document. Deadlock and non-termination are violations. The deciding step is exhaustive enumeration of schedules, which is the only way to close windows a few instructions wide (doc-lock stripes, operation gate, versioned put, cache generations).",
+    "note": "Single-threaded executor: code between two suspension points is atomic (the property's own quantifier); OS-thread parallelism inside the index calls is explored by the THREAD parts of C04/C10/C11. The property's 'randomized multi-threaded executions' are sampling and are not built. The state a concurrent flush persisted is not yet compared (only the final state).",
+    "parts": [
+        {"part": "step", "crate": "vdb", "bin": "c05_step", "args": ["--property", "C05"], "budget_quick": 35, "budget_thorough": 1500},
+    ],
+}
+
+CHECKS["C06"] = {
+    "level": "model_checking",
+    "engine": "STEP (choice-DFS + ctlstore gates + task-attributed journal)",
+    "technique": "exhaustive enumeration of cancellation points (every poll count of every mutating API) and of preemption-bounded interleavings of lifecycle transitions with in-flight/queued operations on the real database, decided on the task-attributed backend mutation journal",
+    "design_ref": "DESIGN.md 5/C06",
+    "text": "cancel: each of 14 mutating APIs (add, update x2, remove, flush, save/remove_extension, compact x2, reconcile, close, close_collection, delete_collection, database close; clean and dirty collection) is dropped after k polls for every k up to completion: a handle that stays Active must have changed nothing in storage or memory; any other state must reject all ten mutating APIs with zero writes, also after set_read_only(false); reopening through the same database must satisfy the C01/C02 oracles with the cancelled call all-or-nothing; a cancelled delete must be retryable and leave nothing. race: each of 6 transitions (close, close_collection, delete_collection, database close, collection and database read-only switch) against every set of 1 (preemption bound 2) or 2 (bound 1) operations — thorough up to 3 — with every schedule enumerated; because every backend mutation is attributed to its issuing task, 'no write after close/delete returned', 'no write and no acceptance by a call that was queued or not started when the read-only switch took effect', 'delete leaves nothing and nothing is recreated' are checked on the journal itself.",
+    "note": "Await granularity. Operations of one race set touch different documents so that 'blocked before the first backend call' means queued for admission. Index creation/removal as cancelled calls are covered only through the reopen callback in C01/C02, not as cancellation targets.",
+    "parts": [
+        {"part": "step", "crate": "vdb", "bin": "c06_step", "budget_quick": 35, "budget_thorough": 1500},
+    ],
+}
